@@ -11,14 +11,14 @@ import (
 
 // vRespWriter is the http.ResponseWriter + http.Hijacker handed to accept.
 type vRespWriter struct {
-	hdr      http.Header
-	code     int
-	codes    []int
-	body     []byte
-	hijacks  int
-	canHijack bool
-	conn     *vNetConn
-	brw      *bufio.ReadWriter
+	hdr              http.Header
+	code             int
+	codes            []int
+	body             []byte
+	hijacks          int
+	canHijack        bool
+	conn             *vNetConn
+	brw              *bufio.ReadWriter
 	hdrAtWriteHeader http.Header
 }
 
